@@ -64,6 +64,7 @@ func (p *Pool[K, V]) Close() (err error) {
 	var eg errs.Group
 	for ent := p.order.head; ent != nil; ent = ent.global.next {
 		eg.Add(p.closeEntry(ent))
+		ent.gone = true
 	}
 
 	p.entries = make(map[K]*list[K, V])
@@ -92,17 +93,28 @@ func (p *Pool[K, V]) removeEntry(ent *entry[K, V]) {
 	p.mu.Lock()
 	defer p.mu.Unlock()
 
+	// Take, Put's eviction or Close may have unlinked the entry after the timer fired.
+	if ent.gone {
+		return
+	}
+
 	local := p.entries[ent.key]
 	if local == nil {
 		return
 	}
 
-	local.removeEntry(ent, (*entry[K, V]).localList)
-	p.order.removeEntry(ent, (*entry[K, V]).globalList)
+	p.unlink(local, ent)
 
 	if local.count == 0 {
 		delete(p.entries, ent.key)
 	}
+}
+
+// unlink removes the entry from the per-key list and the global list exactly once.
+func (p *Pool[K, V]) unlink(local *list[K, V], ent *entry[K, V]) {
+	ent.gone = true
+	local.removeEntry(ent, (*entry[K, V]).localList)
+	p.order.removeEntry(ent, (*entry[K, V]).globalList)
 }
 
 // closeEntry ensures the timer and connection are closed, returning any errors.
@@ -135,8 +147,7 @@ func (p *Pool[K, V]) Take(key K) (V, bool) {
 			continue
 		}
 
-		local.removeEntry(ent, (*entry[K, V]).localList)
-		p.order.removeEntry(ent, (*entry[K, V]).globalList)
+		p.unlink(local, ent)
 
 		if ent.exp != nil && !ent.exp.Stop() {
 			continue
@@ -175,8 +186,7 @@ func (p *Pool[K, V]) Put(key K, val V) {
 
 		_ = p.closeEntry(ent)
 
-		local.removeEntry(ent, (*entry[K, V]).localList)
-		p.order.removeEntry(ent, (*entry[K, V]).globalList)
+		p.unlink(local, ent)
 	}
 
 	for p.opts.Capacity != 0 && p.order.count >= p.opts.Capacity {
@@ -185,8 +195,7 @@ func (p *Pool[K, V]) Put(key K, val V) {
 
 		_ = p.closeEntry(ent)
 
-		local.removeEntry(ent, (*entry[K, V]).localList)
-		p.order.removeEntry(ent, (*entry[K, V]).globalList)
+		p.unlink(local, ent)
 
 		if local.count == 0 {
 			delete(p.entries, ent.key)
